@@ -3,7 +3,7 @@ import LlirModel.Drv.Core2Ops
 /-! Line-protocol descriptors of M-Core-3 functions.
     `core3.print <ret ty> <hexname> <params> <blocks>`
     ident: `N<hex>` | `I<num>`;  params: `-` or `<ty>~<ident>` joined by `|`;  blocks joined by `/`, a block is `<ident>^<inst>^...^<term>`;
-    inst: `<ident or _>:<row>:<args>` (switch, invoke, landingpad: `…:<args>:<continuation lines>`, see parseExtD) with args joined by `!` (or `-`): `T<ty>` | `P<ty>=<operand>` | `V<operand>` | `L<ident>` | `R` | `R<ty>=<operand>` | `H<operand>~<ident>&...` (phi incoming list) | `K<n>,<n>…` (index path) | `A` / `A<n>` (no / an alignment) | `F<i>,<i>…` (flag keywords by position in the row's list) | `W<i>` (the keyword of a `kw` slot by position: atomic ordering, atomicrmw operation) | `O` / `O<i>` (no / an optional keyword: the ordering of an atomic load / store) | `X<ident>` (a bare local value) | `Y` / `Y<ident>` (parent pad `none` / a local) | `B<ident>,<ident>…` (label list) | `U` / `U<ident>` (unwind to caller / to a label) | `G<ty>=<operand>&…` (typed index list);
+    inst: `<ident or _>:<row>:<args>` (switch, invoke, landingpad: `…:<args>:<continuation lines>`, see parseExtD; metadata attachments: `…:<args>:M<hexname>=<id>&…`) with args joined by `!` (or `-`): `T<ty>` | `P<ty>=<operand>` | `V<operand>` | `L<ident>` | `R` | `R<ty>=<operand>` | `H<operand>~<ident>&...` (phi incoming list) | `K<n>,<n>…` (index path) | `A` / `A<n>` (no / an alignment) | `F<i>,<i>…` (flag keywords by position in the row's list) | `W<i>` (the keyword of a `kw` slot by position: atomic ordering, atomicrmw operation) | `O` / `O<i>` (no / an optional keyword: the ordering of an atomic load / store) | `X<ident>` (a bare local value) | `Y` / `Y<ident>` (parent pad `none` / a local) | `B<ident>,<ident>…` (label list) | `U` / `U<ident>` (unwind to caller / to a label) | `G<ty>=<operand>&…` (typed index list);
     operand: `%<ident>` | `#<const descriptor>` | `@<hexname>` (a global variable or function of the module: M-Whole only) -/
 namespace Llir.Drv
 open Llir Llir.Types Llir.Core2 Llir.Core3
@@ -91,16 +91,25 @@ def parseExtD (s : String) : Option Ext :=
      | _ => none)
   | _ => none
 
+/-- the attachments: `M<hexname>=<id>&<hexname>=<id>…` -/
+def parseMdD (s : String) : Option (List (Bytes × Nat)) :=
+  match s.toList with
+  | 'M' :: r => ((String.ofList r).splitOn "&").mapM fun (it : String) =>
+      match it.splitOn "=" with
+      | [n, k] => k.toNat?.map fun k => (argHex n, k)
+      | _ => none
+  | _ => none
+
 def parseInstD (s : String) : Option Inst :=
-  let go (r k as : String) (x : Option Ext) : Option Inst :=
+  let go (r k as : String) (x : Option Ext) (md : Option (List (Bytes × Nat))) : Option Inst :=
     let res := if r == "_" then some none else (parseIdentD r).map some
     let args := if as == "-" then some [] else (as.splitOn "!").mapM parseArgD
-    match res, k.toNat?, args, x with
-    | some res, some k, some args, some x => some ⟨res, k, args, x⟩
-    | _, _, _, _ => none
+    match res, k.toNat?, args, x, md with
+    | some res, some k, some args, some x, some md => some ⟨res, k, args, x, md⟩
+    | _, _, _, _, _ => none
   match s.splitOn ":" with
-  | [r, k, as] => go r k as (some .none)
-  | [r, k, as, x] => go r k as (parseExtD x)
+  | [r, k, as] => go r k as (some .none) (some [])
+  | [r, k, as, x] => if x.startsWith "M" then go r k as (some .none) (parseMdD x) else go r k as (parseExtD x) (some [])
   | _ => none
 
 def parseBlockD (s : String) : Option Block :=
